@@ -345,6 +345,8 @@ def remove_unused_imports(source: str) -> str:
 
 
 def fix_too_many_blank_lines(source: str) -> str:
+    original_source = source
+
     # At module level, remove all above 2 blank lines
     source = re.sub(r"(\n\s*){3,}\n", "\n" * 3, source)
 
@@ -353,6 +355,10 @@ def fix_too_many_blank_lines(source: str) -> str:
 
     # At non-module (any indented) level, remove all newlines above 1, preserve indent
     source = re.sub(r"(\n\s*){2,}(\n\s+)(?=[^\n\s])", r"\n\g<2>", source)
+
+    if not core.is_valid_python(source) and core.is_valid_python(original_source):
+        # A blank line may be what ends a line continuation
+        return original_source
 
     return source
 
